@@ -925,6 +925,11 @@ impl<'a, R: Read, E: Encryption> Builder<'a, R, E> {
             } else {
                 self.to_writer(rng, &mut enc)?;
             }
+
+            // Finish explicitly: errors while writing out what is still buffered must not get lost.
+            enc.finish()?;
+            drop(enc);
+            line_wrapper.finish()?;
         }
 
         // write footer
